@@ -231,6 +231,14 @@ Definition cls_match (k : cls) (x : N) : bool :=
   | CSet neg items => xorb neg (existsb (setitem_match x) items)
   end.
 
+(* k*? followed by the continuation `cont`: zero characters, or one character of k and again *)
+Fixpoint star_match (k : cls) (cont : text -> bool) (m : text) : bool :=
+  cont m ||
+  match m with
+  | [] => false
+  | x :: m' => cls_match k x && star_match k cont m'
+  end.
+
 (* does the item sequence match the WHOLE of n (anchored at both ends)? *)
 Fixpoint match_items (its : list item) (n : text) : bool :=
   match its with
@@ -240,13 +248,7 @@ Fixpoint match_items (its : list item) (n : text) : bool :=
     | [] => false
     | x :: n' => cls_match k x && match_items r n'
     end
-  | Star k :: r =>
-    (fix star (m : text) : bool :=
-       match_items r m ||
-       match m with
-       | [] => false
-       | x :: m' => cls_match k x && star m'
-       end) n
+  | Star k :: r => star_match k (match_items r) n
   end.
 
 Definition match_re (r : outcome regex) (n : text) : outcome bool :=
